@@ -97,10 +97,10 @@ func KVInt64(f []string, key string, def int64) int64 {
 	return def
 }
 
-// OpTimeout bounds one operation (env HX_OP_TIMEOUT_MS, default 5000). An operation that does not
+// OpTimeout bounds one operation (env HX_OP_TIMEOUT_MS, default 12000). An operation that does not
 // return in time (a loop that no longer terminates, a lost wake-up) is reported as "timeout", the
 // rest of its scenario as "dead"; after three timeouts the process gives up.
-var OpTimeout = 5 * time.Second
+var OpTimeout = 12 * time.Second
 
 func withTimeout(fn func() string) (res string, timedOut bool) {
 	ch := make(chan string, 1)
